@@ -9,6 +9,10 @@ CHECKS = {
    text="Bounded symbolic model checking of the real cafs write/read code (Write, pFlush, flush, Flush, Put, Read, ReadAt, WriteTo, leafFreelist, golang-lru from source): for every leaf size 2..4 B, every content length 0..2 leaves+1 (thorough: 3 leaves+1), every content byte (symbolic), every source chunking (one big Write or 2 solver-sized chunks), every read buffer size 1..2 leaves, every ReadAt offset/length incl. past EOF, short reads / EOF-with-data from the store, the solver shows written size, stored layout and returned bytes are exact. Leaf sizes are below cafs.New's 64 B..5 MiB guard because byte buffers are cell vectors of concrete length; the code is parametric in the leaf size.",
    note="Trusted: go/ssa, the gosmt interpreter (natively cross-validated on sampled paths every run), BLAKE2b as injective UF, in-memory object-store stub, one cooperative schedule for the flush goroutines. Outside: real leaf sizes (64 B..5 MiB), >3 leaves, cache eviction pressure, prefetch depth >1, leafTruncation.",
    design="DESIGN.md §6 C01"),
+ "C20": dict(
+   text="Bounded symbolic model checking of the metadata path builders and parser, the consumable-store path inverse, generated-file detection and the name validators (real code of pkg/model; strings.SplitN, path.Join, strconv, ksuid.Parse, unicode tables from source; regexp literals as an unrolled NFA of the compiled program): for every repo/label/context/split name of 1..3 arbitrary bytes without '/', every descriptor state, file-list indices at the boundary values up to 2^64-1, parse(build(x)) = x field by field for all 8 path kinds; two paths built by any two of 9 builders from names of 1..2 bytes are equal only if same kind and same names; IsGeneratedFile(s) equals the stated spec for every byte string of length 0..16; ValidateRepo/ValidateLabel never panic and accept a name iff every rune is in the documented alphabet, for all ASCII names of 1..3 bytes and all names made of one 2-byte rune (U+0080..U+07FF) alone or next to an ASCII byte. Partial: descriptor YAML round trips are not decided.",
+   note="Trusted: go/ssa, gosmt interpreter (natively cross-validated), Go's regexp/syntax compiler for the NFA program, the Unicode 15 category data written out as the alphabet table. Outside: descriptor YAML round trip (yaml.v2 is reflection-driven third-party code), names longer than 3 bytes, runes from U+0800, symbolic ksuids (concrete well-formed ids are used), ValidateContext.",
+   design="DESIGN.md §6 C20"),
  "C22": dict(
    text="Bounded symbolic model checking of trackWrite/getRangeToRead with go-immutable-radix run from source: all sequences of 3 (thorough 4) writes with offset 0..200, length 1..55 and all probe offsets/lengths, plus one inductive step from an arbitrary valid pre-state of up to 3 disjoint ranges (covers histories of any length within that footprint); oracle = union of written ranges; also that the marker representation invariant is preserved.",
    note="Trusted: go/ssa, gosmt interpreter (natively cross-validated), sync.Mutex model. Outside: offsets >= 256 (multi-byte key divergence in the radix tree), negative offsets, zero-length writes, more than 3 pre-existing ranges in the step harness.",
